@@ -107,6 +107,9 @@ type slInst struct {
 	pendModel    *slModel
 	pendBlock    []string
 	base         *slModel // model as of the last flush (what origin reads see)
+	// reference journal window: heights whose undo journals are retained (the last 10
+	// committed blocks), tracked by the harness and never read back from the ledger
+	wmin, wmax uint64
 }
 
 type slReexec struct {
@@ -271,6 +274,7 @@ func (in *slInst) apply(op string) bool {
 				delete(in.data, h)
 			}
 			in.height = t
+			in.wmax = t
 			in.cur = in.hist[t].clone()
 			in.comm = in.hist[t].clone()
 			in.base = in.hist[t].clone() // the block being built next starts from the target's state
@@ -310,6 +314,13 @@ func (in *slInst) doCommit() {
 	in.height++
 	if err := in.l.Commit(in.height, in.pendAccounts, in.pendRoot); err != nil {
 		panic(fmt.Errorf("commit %d: %w", in.height, err))
+	}
+	if in.wmin == 0 {
+		in.wmin = in.height
+	}
+	in.wmax = in.height
+	if in.height > 10 && in.height-10 > in.wmin {
+		in.wmin = in.height - 10
 	}
 	in.roots[in.height] = in.pendRoot.String()
 	in.blocks[in.height] = in.pendBlock
